@@ -585,8 +585,8 @@ def translate(io_path, store_path=None):
             sw = store_writes(ast.parse(Path(store_path).read_text()))
         except TranslationError as e:
             problems.append(f"DataStoreDirectory._write: {e}")
-    if len(parts) != 3:
-        return None, info, problems
+    if len(parts) != 3 or (store_path is not None and sw is None):
+        return None, info, problems  # nothing is written: the last generated file (and the driver built from it) stays
     out = [HEADER]
     for k in ("init", "enter", "exit"):
         out.append(f"def {k} : Stmt :=\n  {render(parts[k])}\n")
